@@ -157,6 +157,7 @@ FamFuncDef == {"lit", "var", "bin", "func", "select", "let"}
 FamModDef == {"lit", "var", "bin", "module", "dot", "letuse"}
 FamFuncUse == {"lit", "var", "bin", "func", "select", "list", "letuse", "exprstmt"}
 FamCast == {"lit", "var", "bin", "cast", "let"}
+FamCastDot == {"lit", "var", "cast", "dot", "select", "let"}
 FamDotUse == {"lit", "var", "bin", "dot", "dotcall", "dotcopy", "let", "exprstmt"}
 FamScopeMod == {"lit", "var", "bin", "module", "dot", "letuse", "outerref"}
 FamScopeFn == {"lit", "var", "bin", "func", "fmt1", "letuse", "leakref", "fwdref", "let", "call"}
